@@ -333,4 +333,57 @@ THEOREM GrossExactOutsideWindow ==
     OBVIOUS
   <2> QED BY <2>5, <2>6, <1>d
 <1> QED BY <1>1, <1>2
+
+(* C05 lower bound: the minted share is less than one unit below the smaller ratio *)
+THEOREM ShareAtMostOneLess ==
+    ASSUME NEW S \in Nat, NEW d0 \in Nat, NEW d1 \in Nat, NEW r0 \in Nat, NEW r1 \in Nat, r0 > 0, r1 > 0,
+           NEW s0 \in Nat, s0 = (d0 * S) \div r0,
+           NEW s1 \in Nat, s1 = (d1 * S) \div r1,
+           NEW m \in Nat, m = IF s0 <= s1 THEN s0 ELSE s1
+    PROVE  \/ (m + 1) * r0 > d0 * S
+           \/ (m + 1) * r1 > d1 * S
+<1>a. d0 * S \in Nat /\ d1 * S \in Nat
+  OBVIOUS
+<1>1. d0 * S < r0 * (s0 + 1)
+  <2>1. d0 * S < r0 * (((d0 * S) \div r0) + 1)
+    BY <1>a, DivBounds
+  <2> QED BY <2>1
+<1>2. d1 * S < r1 * (s1 + 1)
+  <2>1. d1 * S < r1 * (((d1 * S) \div r1) + 1)
+    BY <1>a, DivBounds
+  <2> QED BY <2>1
+<1>3. CASE s0 <= s1
+  <2>1. m = s0
+    BY <1>3
+  <2>2. (m + 1) * r0 = r0 * (s0 + 1)
+    BY <2>1
+  <2> QED BY <1>1, <2>2
+<1>4. CASE ~(s0 <= s1)
+  <2>1. m = s1
+    BY <1>4
+  <2>2. (m + 1) * r1 = r1 * (s1 + 1)
+    BY <2>1
+  <2> QED BY <1>2, <2>2
+<1> QED BY <1>3, <1>4
+
+(* C06: the commission k = floor(g*c/D) taken from the gross output g satisfies k*D <= c*(n+k) < (k+1)*D with n = g - k *)
+THEOREM CommissionIdentity ==
+    ASSUME NEW g \in Nat, NEW c \in Nat, NEW D \in Nat, D > 0,
+           NEW k \in Nat, k = (g * c) \div D, k <= g,
+           NEW n \in Nat, n = g - k
+    PROVE  /\ k * D <= c * (n + k)
+           /\ c * (n + k) < (k + 1) * D
+<1>a. g * c \in Nat
+  OBVIOUS
+<1>1. D * k <= g * c /\ g * c < D * (k + 1)
+  <2>1. D * ((g * c) \div D) <= g * c /\ g * c < D * (((g * c) \div D) + 1)
+    BY <1>a, DivBounds
+  <2> QED BY <2>1
+<1>2. n + k = g
+  OBVIOUS
+<1>3. c * (n + k) = g * c
+  BY <1>2
+<1>4. k * D = D * k /\ (k + 1) * D = D * (k + 1)
+  OBVIOUS
+<1> QED BY <1>1, <1>3, <1>4
 =============================================================================
